@@ -3,7 +3,7 @@
 # copies /tmp/benign/<tag>/out/{patchN.diff,notes.md} to benign/<tag>/ and registers each patch as a
 # SILENT variant of the property (and of the extra properties given).
 tag=$1; shift
-id=${tag%w2}
+id=${tag%w[0-9]}
 mkdir -p /verif/benign/$tag
 cp /tmp/benign/$tag/out/patch*.diff /tmp/benign/$tag/out/notes.md /verif/benign/$tag/
 for p in /verif/benign/$tag/patch*.diff; do
@@ -15,7 +15,7 @@ for p in /verif/benign/$tag/patch*.diff; do
  "name": "benign-$tag-$n",
  "patch": "benign/$tag/patch$n.diff",
  "expect": "SILENT",
- "why": "second-opinion behaviour-preserving refactoring by an independent sub-agent that was shown the first wave's notes and asked for different ones (see benign/$tag/notes.md): the check must stay silent"
+ "why": "further-opinion behaviour-preserving refactoring by an independent sub-agent that was shown the earlier waves' notes and asked for different ones (see benign/$tag/notes.md): the check must stay silent"
 }
 EOJ
   done
